@@ -116,5 +116,11 @@ pub fn from_records(items: &[NItem<'_>], full_lines: bool) -> Universe {
     u.files = vec!["SourceFile".into()];
     u.base_lines = if full_lines { (0..=66).collect() } else { vec![0, 1, 2, 3, 5, 8, 13, 21, 34, 55, 66] };
     u.base_lines.extend_from_slice(&[U32M - 1, U32M, U32M + 1, u64::MAX]);
+    // beyond 2^32 with small low halves (would fall into a range after truncation to 32 bits)
+    u.base_lines.extend_from_slice(&[(1 << 32) + 1, (1 << 32) + 3, (1 << 32) + 5, (1 << 32) + 13, (1 << 32) + 40, (1 << 33) + 7]);
+    for c in u.classes.iter_mut() {
+        let extra: Vec<u64> = c.lines.iter().take(6).filter(|l| **l < U32M).map(|l| (1u64 << 32) + *l).collect();
+        c.lines.extend(extra);
+    }
     u
 }
